@@ -59,3 +59,4 @@ def features(stream, case, out):
 
 def nontrivial(stream, case, out):
     return ep.nontrivial(stream, case, [_run_line(case, out)])
+valid_case = ep.valid_case
